@@ -19,7 +19,7 @@ RULE = ('all 7^3 ordered triples of wavelength unit names (4 units + 3 aliases) 
 ASSUMPTIONS = ["lentil's physical constants differ from CODATA by < 1e-6 relative (tolerance 1e-5 on absolute Planck values)"]
 EXHAUSTIVE = True
 PLAN = {'quick': {'gen': 4}, 'thorough': {'gen': 8, 'tests': 1, 'docs': 1}}
-REQUIRED_BUCKETS = ['defaults', 'wave-triple', 'flux-triple', 'spectrum.to:density', 'spectrum.to:unitless', 'spectrum.to:flux-roundtrip', 'spectrum.to:multi', 'spectrum.sample:unit', 'blackbody:converted',
+REQUIRED_BUCKETS = ['defaults', 'reuse', 'wave-triple', 'flux-triple', 'spectrum.to:density', 'spectrum.to:unitless', 'spectrum.to:flux-roundtrip', 'spectrum.to:multi', 'spectrum.sample:unit', 'blackbody:converted',
                     'planck:radiance', 'planck:exitance', 'planck:forms', 'planck:argument-types', 'planck:rayleigh-jeans', 'spectrum.to:refused-tail', 'same-numbers:mixed-units', 'wien', 'stefan-boltzmann', 'vega', 'spectrum.to:edit-in-place', 'spectrum.bin:unit', 'unit:aliases', 'spectrum:narrow-columns', 'spectrum:narrow-columns:assigned', 'spectrum:narrow-columns:resampled', 'spectrum.to:blackbody-objects', 'spectrum.to:sub-range-integral', 'planck:temperature-vector-types']
 REQUIRED_ANCHORS = ['anchor:Spectrum.to', 'anchor:planck_radiance', 'anchor:planck_exitance', 'anchor:vegaflux',
                     'anchor:Photlam.to', 'anchor:Micron.to']
